@@ -135,6 +135,15 @@ impl MetadataClient for RecMeta {
             |_v: &()| String::new()
         )
     }
+    async fn swap_compacted_chunk(&self, source_chunks: &[String], target: &ChunkMetadata) -> Result<()> {
+        wrap!(
+            self,
+            "swap_compacted_chunk",
+            format!("{}|{}|{}|{}|{}", serde_json::to_string(source_chunks).unwrap_or_default(), target.path, target.min_timestamp, target.max_timestamp, target.row_count),
+            self.inner.swap_compacted_chunk(source_chunks, target),
+            |_v: &()| String::new()
+        )
+    }
     async fn update_compaction_status(&self, job_id: &str, status: CompactionStatus) -> Result<()> {
         wrap!(
             self,
